@@ -304,6 +304,49 @@ def r_prechecks(ck: Checker) -> None:
     (ck.holds if ok else ck.violation)("R-LEG-PRECHECK", rw, rw.node, what, **({"pre_checks": len(pre)} if ok else {"construct": f"replace_with: only {len(pre)} rejections precede the first effect (4 expected)"}))
 
 
+def r_clone(ck: Checker) -> None:
+    """The transform visitor works on a detached clone whenever the node it is given is attached (root or subtree)."""
+    from ..finite import discover_atoms, truth_table
+
+    f = ck.repo.func(LNODE, "ASTTransformVisitor.transform")
+    fn = f.node
+    nodep = fn.args.args[1].arg
+    guards = [st for st in fn.body if isinstance(st, ast.If) and any(
+        isinstance(x, ast.Assign) and norm(x.targets[0]) == nodep and "duplicate(as_detached_clone=True)" in norm(x.value) for x in st.body)]
+    what = ("transform clones every attached node (attached root or attached subtree) into a detached copy before visiting it, so a failing "
+            "visitor cannot leave a partial rewrite in the live tree")
+    if len(guards) != 1:
+        ck.violation("R-LEG-CLONE", f, fn, what, construct=f"transform: {len(guards)} clone guards found")
+        return
+    g = guards[0]
+    atoms = discover_atoms(g.test)
+    k_det = f"{nodep}.detached"
+    k_root, k_sub = f"{nodep}.is_attached_root", f"{nodep}.is_attached_subtree"
+    ok = False
+    if atoms == [k_det]:
+        rows = truth_table(g.test, {k_det: (True, False)})
+        ok = all(bool(v) == (not a[k_det]) for a, v in rows)
+    elif set(atoms) == {k_root, k_sub}:
+        rows = truth_table(g.test, {k_root: (True, False), k_sub: (True, False)})
+        ok = all(bool(v) == (a[k_root] or a[k_sub]) for a, v in rows)
+    if not ok:
+        ck.violation("R-LEG-CLONE", f, g, what, construct=f"transform: the clone is made under `{norm(g.test)}` (attached subtrees / roots may be visited in place)")
+        return
+    remembered = any(isinstance(x, ast.Assign) and norm(x.targets[0]) == "orig_node" and norm(x.value) == nodep for x in g.body)
+    order_ok = remembered and [norm(x.targets[0]) for x in g.body if isinstance(x, ast.Assign)][:2] == ["orig_node", nodep]
+    tries = [st for st in fn.body if isinstance(st, ast.Try)]
+    rw_ok = False
+    if len(tries) == 1:
+        t = tries[0]
+        visit = [x for x in t.body if isinstance(x, ast.Assign) and "visit(" in norm(x.value)]
+        rw = [x for x in t.body if isinstance(x, ast.If) and norm(x.test) == "orig_node is not None" and [norm(y) for y in x.body] == [f"orig_node.replace_with({norm(visit[0].targets[0])})"]] if visit else []
+        rw_ok = bool(visit) and bool(rw) and t.body.index(visit[0]) < t.body.index(rw[0])
+    if order_ok and rw_ok:
+        ck.holds("R-LEG-CLONE", f, g, what, guard=norm(g.test))
+    else:
+        ck.violation("R-LEG-CLONE", f, fn, what, construct="transform: original not remembered before cloning / replace_with not applied after a successful visit only")
+
+
 def run(ck: Checker) -> None:
     ck.explanation = (
         "Effect / compensation analysis of the legacy operations that can be rejected (replace, replace_with, _attach_inner via __post_init__/"
@@ -318,3 +361,4 @@ def run(ck: Checker) -> None:
                        "compensation calls inside except handlers do not fail themselves"]
     ck.guard("R-LEG-ROLLBACK", lambda: r_rollback(ck))
     ck.guard("R-LEG-PRECHECK", lambda: r_prechecks(ck))
+    ck.guard("R-LEG-CLONE", lambda: r_clone(ck))
